@@ -49,8 +49,11 @@ def configs(tier, seed):
                 out.append(dict(b, check='dtype', how=how, xdtype=xd, B=1, C=2))
         if not b.get('none'):
             out.append(dict(b, check='quant', B=1, C=1))
-            for view in ('step2', 'transposed', 'chanslice', 'flipbatch', 'chlast'):
+            for view in ('step2', 'transposed', 'chanslice', 'flipbatch', 'chlast', 'expand'):
                 out.append(dict(b, check='view', view=view, B=2, C=2))
+    for view in ('expand', 'chlast', 'transposed', 'chanslice'):
+        out.append(dict(kind='scat1', biort='near_sym_a', magbias=0.01, H=4, W=4, colour=False, B=2, C=3, check='view', view=view))
+    out.append(dict(kind='scat1', biort='near_sym_b_bp', magbias=0.01, H=4, W=4, colour=True, B=1, C=3, check='view', view='expand'))
     for sc in [dict(kind='scat1', biort='near_sym_a', magbias=0.01, H=4, W=4, colour=False, B=1, C=2), dict(kind='scat1', biort='near_sym_a', magbias=0.01, H=4, W=4, colour=True, B=1, C=3),
                dict(kind='scat1', biort='near_sym_b_bp', magbias=0.01, H=4, W=4, colour=True, B=1, C=3), dict(kind='scat2', biort='near_sym_a', qshift='qshift_a', magbias=0.01, H=8, W=8, colour=False, B=1, C=1),
                dict(kind='scat2', biort='near_sym_a', qshift='qshift_a', magbias=0.01, H=8, W=8, colour=True, B=1, C=3)]:
@@ -388,6 +391,9 @@ def _views(tt, view, t):
         return z[..., ::2]
     if view == 'transposed':
         return t.transpose(-1, -2).contiguous().transpose(-1, -2)
+    if view == 'expand':
+        # one channel broadcast to C channels (stride 0): the values are those of t[:, :1] repeated
+        return t[:, :1].expand(-1, t.shape[1], *([-1] * (t.dim() - 2)))
     if view == 'chanslice':
         z = tt.cat([t, t * 0, t], dim=1)
         return z[:, :t.shape[1]] if t.shape[1] > 0 else t
@@ -404,8 +410,21 @@ def _views(tt, view, t):
 
 
 def _view_case(cfg):
-    specs = C07._slice_specs(cfg, cfg['B'], cfg['C'])
     view = cfg['view']
+    if cfg['kind'] == 'scat1':
+        specs = [('x', (cfg['B'], cfg['C'], cfg['H'], cfg['W']))]
+
+        def mk(pw):
+            return pw.ScatLayer(biort=cfg['biort'], magbias=cfg['magbias'], combine_colour=cfg['colour'])
+
+        def a1(pw, ts):
+            return [('out0', mk(pw)(_views(C07._tt(pw), view, ts[0])))]
+
+        def b1(pw, ts):
+            t = _views(C07._tt(pw), view, ts[0]) if view == 'expand' else ts[0]
+            return [('out0', mk(pw)(t.contiguous().clone()))]
+        return specs, a1, b1
+    specs = C07._slice_specs(cfg, cfg['B'], cfg['C'])
 
     def a(pw, ts):
         tt = C07._tt(pw)
@@ -415,6 +434,7 @@ def _view_case(cfg):
 
     def b(pw, ts):
         m = C07._module(pw, cfg)
+        ts = [(_views(C07._tt(pw), view, t) if t.dim() >= 3 else t) for t in ts] if view == 'expand' else ts
         return [('out%d' % i, o) for i, o in enumerate(_apply(m, cfg, [t.contiguous().clone() for t in ts]))]
     return specs, a, b
 
